@@ -159,6 +159,13 @@ theorem C13_website_found_iff (U : Detect.UEnv) (w tld : CPs) (hm : tld ∈ Gene
       ∃ k, Detect.OccursAt w tld k ∧ Detect.endsHost U w tld k = true :=
   Detect.tldSearch_finds_iff U w tld hm
 
+/-- **`detect_website` as a whole**: a section is taken for a website exactly when, in its lower-cased working copy, some top-level domain
+of the table has an occurrence that ends a host name - for every string and every character classification -/
+theorem C13_website_detected_iff (U : Detect.UEnv) (text : CPs) :
+    (Detect.detectWebsite U text).isSome = true ↔
+      ∃ tld ∈ Generated.Tables.tldList, ∃ k, Detect.OccursAt (U.lowerS text) tld k ∧ Detect.endsHost U (U.lowerS text) tld k = true :=
+  Detect.detectWebsite_isSome_iff U text
+
 /-- **nothing outlives a call except the objects a caller holds** (regenerated from the four library packages): no module-level or
 class-level mutable container, no cache decorator or cache call (`functools.lru_cache`, `cache`), no mutable or computed default
 argument and no `global` statement anywhere in `lib_guesser`, `lib_trainer`, `lib_scorer`, `lib_princeling`.  The models of this file are
